@@ -24,7 +24,8 @@ RULE = ("2-4 threads x 2-3 requests each on one ConnectionPool; families F1 (lim
         "expiry races), F3 (one shared HTTP/2 connection, MAX_CONCURRENT_STREAMS 1-100), F4 (max_connections 1, some callers "
         "with a pool timeout and some without, and a scheduler that lets a timed wait expire while the other threads are "
         "mid-step: timeout-versus-hand-over races; a PoolTimeout after the time has passed is the only failure allowed); schedules: uniform random switching "
-        "p in {0.02,0.1,0.3} and PCT depth 1-3, each with line-level pre-emption; distinct+non-trivial = distinct schedule "
+        "p in {0.02,0.1,0.3} and PCT depth 1-3, each with line-level pre-emption, a third of them also with bytecode-level "
+        "pre-emption inside the pool module; distinct+non-trivial = distinct schedule "
         "fingerprint (sequence of thread choices at switch points) with >= 1 context switch inside httpcore code")
 ASSUMPTIONS = ["shim Lock/Event/Semaphore model threading's semantics; pre-emption only between lines of httpcore's sync code "
                "(h11/h2/hpack run atomically: under-approximates CPython, can miss but not invent races)",
@@ -65,7 +66,7 @@ def gen_thread_spec(r: random.Random) -> dict:
 def run_case(case):
     viol = []
     cnt = {k: 0 for k in ["schedules", "yield_points", "line_events", "context_switches", "requests_ok", "requests_failed",
-                          "oracle_limit_evals", "lock_contended", "event_blocked", "sem_blocked", "deadlocks", "pool_timeouts",
+                          "oracle_limit_evals", "lock_contended", "event_blocked", "sem_blocked", "deadlocks", "pool_timeouts", "opcode_events",
                           "timeouts_under_load"]}
     sigs = set()
     sample = {}
@@ -88,11 +89,13 @@ def run_case(case):
 
             s, outs, shim = run_threaded(setup, seed=sched["seed"] ^ spec["seed"], strategy=sched["strategy"], p=sched.get("p", 0.1),
                                          depth=sched.get("depth", 2), lines=True, est_steps=3000,
-                                         p_jump=0.01 if spec["family"] == "F4" else 0.0)
+                                         p_jump=0.01 if spec["family"] == "F4" else 0.0,
+                                         opcodes=bool(sched.get("opcodes")))
             wl, ob = box["wl"], box["ob"]
             cnt["schedules"] += 1
             cnt["yield_points"] += s.steps
             cnt["line_events"] += s.line_events
+            cnt["opcode_events"] += s.op_events
             cnt["context_switches"] += s.switches
             cnt["timeouts_under_load"] += s.jumps
             cnt["oracle_limit_evals"] += ob.evals
@@ -166,5 +169,8 @@ def plan(tier, seed):
                 scheds.append({"strategy": "random", "p": r.choice([0.02, 0.1, 0.3]), "seed": r.randrange(1 << 30)})
             else:
                 scheds.append({"strategy": "pct", "depth": r.choice([1, 2, 3]), "seed": r.randrange(1 << 30)})
+        # two schedules per case with bytecode-level pre-emption inside the pool module (read-modify-write within one line)
+        scheds[-1] = dict(scheds[-1], opcodes=True)
+        scheds[-2] = dict(scheds[-2], opcodes=True, p=0.05)
         cases.append({"specs": specs, "scheds": scheds, "seed": r.randrange(1 << 30)})
     return cases
